@@ -292,7 +292,8 @@ Definition usable_probe (c : ocase) (p : proposal) (pr : oprobe) : bool :=
       end
   end.
 
-Definition mon_installed (c : ocase) (kind : nat) (p : proposal) (pre post : state) (probes : list oprobe) : list nat :=
+(** the part of the monitor that looks at the stores only (kinds 19, 15, 16, 17); [kind]: 0 create, 1 upgrade, 2 toggle *)
+Definition mon_installed_core (kind : nat) (p : proposal) (post : state) : list nat :=
   let s := store_of post (p_name p) in
   let cl := p_client p in
   (if ctype_eqb (cs_type (p_cons p)) (type_of cl) then [] else [19%nat]) ++
@@ -301,7 +302,10 @@ Definition mon_installed (c : ocase) (kind : nat) (p : proposal) (pre post : sta
        else has_key (KCons (latest_of cl)) (VCons (p_cons p)) s)
    then [] else [15%nat]) ++
   (if metadata_ok (now post) cl s then [] else [16%nat]) ++
-  (if (Nat.eqb kind 1 || only_installed cl s) && cons_all_of_type (type_of cl) s then [] else [17%nat]) ++
+  (if (Nat.eqb kind 1 || only_installed cl s) && cons_all_of_type (type_of cl) s then [] else [17%nat]).
+
+Definition mon_installed (c : ocase) (kind : nat) (p : proposal) (pre post : state) (probes : list oprobe) : list nat :=
+  mon_installed_core kind p post ++
   (if content_fresh (now post) p
    then match find_probe (p_name p) probes with
         | Some pr => if usable_probe c p pr then [] else [18%nat]
